@@ -16,6 +16,8 @@ struct Params {
     /// the last peer closes both directions before the sends
     last_peer_leaves: bool,
     policy: u8,
+    /// peer 0's connection accepts 7 bytes and then nothing until a later environment event re-opens it
+    backpressure: bool,
 }
 
 fn announced(kind: u8, p: usize) -> Option<Vec<u8>> {
@@ -51,6 +53,9 @@ fn scenario(pr: &Params) -> Verdict {
             };
             c.send(&rc::encode_message(&m));
             mine.push(m);
+        }
+        if pr.backpressure && p == 0 {
+            world::script_wmodes(c.from_lib, &[world::WMode::Budget(7), world::WMode::Open]);
         }
         if pr.last_peer_leaves && p + 1 == n {
             // closes both directions: end-of-stream towards the socket, writes to it fail
@@ -134,7 +139,7 @@ fn scenario(pr: &Params) -> Verdict {
     let end = world::run(e3::HORIZON * (1 + n as u64 / 4));
     let mut v = Verdict::default();
     v.truncated = end != world::RunEnd::Quiescent;
-    let what = format!("ROUTER with peers {:?} (0=1-byte id, 1=255-byte id, 2=auto, 3=ids that are prefixes of one another, 4=255-byte ids differing in the last byte), {} messages each{}", pr.ids, pr.msgs, if pr.last_peer_leaves { ", last peer closes" } else { "" });
+    let what = format!("ROUTER with peers {:?} (0=1-byte id, 1=255-byte id, 2=auto, 3=ids that are prefixes of one another, 4=255-byte ids differing in the last byte), {} messages each{}", pr.ids, pr.msgs, if pr.last_peer_leaves { ", last peer closes" } else if pr.backpressure { ", peer 0's connection accepting 7 bytes and then nothing for a while" } else { "" });
     for p in world::panics() {
         v.violate("panic", format!("{}: {}", what, p));
     }
@@ -366,7 +371,7 @@ fn cancel_scenario(id_kind: u8, how: u8, big: bool, policy: u8) -> Verdict {
 }
 
 fn pj(p: &Params) -> Value {
-    json!({"ids": p.ids, "msgs": p.msgs, "last_peer_leaves": p.last_peer_leaves, "policy": p.policy})
+    json!({"ids": p.ids, "msgs": p.msgs, "last_peer_leaves": p.last_peer_leaves, "policy": p.policy, "backpressure": p.backpressure})
 }
 
 fn pf(v: &Value) -> Option<Params> {
@@ -375,6 +380,7 @@ fn pf(v: &Value) -> Option<Params> {
         msgs: v["msgs"].as_u64()? as usize,
         last_peer_leaves: v["last_peer_leaves"].as_bool()?,
         policy: v["policy"].as_u64().unwrap_or(0) as u8,
+        backpressure: v["backpressure"].as_bool().unwrap_or(false),
     })
 }
 
@@ -404,10 +410,15 @@ pub fn run(tier: Tier, replay: Option<String>) -> i32 {
     for ids in idsets {
         for leaves in [false, true] {
             for policy in 0..3u8 {
-                let pr = Params { ids: ids.clone(), msgs: 2, last_peer_leaves: leaves, policy };
+                let pr = Params { ids: ids.clone(), msgs: 2, last_peer_leaves: leaves, policy, backpressure: false };
                 let pr2 = pr.clone();
                 let bound = if ids.len() >= 3 { tier.pick(2, 3) } else { tier.pick(3, 4) };
                 jobs.push(e3::job(format!("C09/{:?}/{}/policy{}", ids, leaves, policy), pj(&pr), bound, tier.pick(600_000, 8_000_000), move || scenario(&pr2)));
+                if ids.len() == 2 && !leaves {
+                    let pr = Params { backpressure: true, ..pr.clone() };
+                    let pr2 = pr.clone();
+                    jobs.push(e3::job(format!("C09/{:?}/{}/policy{}/bp", ids, leaves, policy), pj(&pr), tier.pick(1, 2), tier.pick(300_000, 3_000_000), move || scenario(&pr2)));
+                }
             }
         }
     }
@@ -415,7 +426,7 @@ pub fn run(tier: Tier, replay: Option<String>) -> i32 {
     for &n in tier.pick(&[17usize, 65, 130][..], &[17usize, 65, 130, 257, 520][..]) {
         for kind in [2u8, 5] {
             for policy in 0..3u8 {
-                let pr = Params { ids: vec![kind; n], msgs: 1, last_peer_leaves: false, policy };
+                let pr = Params { ids: vec![kind; n], msgs: 1, last_peer_leaves: false, policy, backpressure: false };
                 let pr2 = pr.clone();
                 jobs.push(e3::job(format!("C09/scale/{}peers/kind{}/policy{}", n, kind, policy), pj(&pr), 0, 1000, move || scenario(&pr2)));
             }
